@@ -190,6 +190,8 @@ type World struct {
 	specDeps    map[string][]string
 	specHeap    map[string][]string
 	ghostFields map[string]map[string]*ghostFieldInfo // owner type string -> field name -> info
+	lock      nameLock
+	lockNotes map[string]bool
 	pendingGhosts []*GhostField
 	ghostVars     map[string]*ghostVarInfo
 	specHeapBusy map[string]bool
@@ -198,6 +200,7 @@ type World struct {
 
 func newWorld() *World {
 	return &World{
+		lockNotes: map[string]bool{},
 		pkgs: map[string]*PkgInfo{}, structs: map[string]*StructInfo{}, structByT: map[string]*StructInfo{},
 		strlits: map[string]string{}, specs: map[string]*SpecFunc{}, specPkg: map[string]*PkgInfo{},
 		lemmas: map[string]*Lemma{}, lemmaPkg: map[string]*PkgInfo{}, contracts: map[string]*FuncContract{},
